@@ -18,6 +18,9 @@
 #include "types.h"
 #include "convert.h"
 
+#ifndef DIRECT
+# define DIRECT 0
+#endif
 typedef __int128 wide;
 
 static int g_neg, g_over;
@@ -29,7 +32,7 @@ static size_t g_lead;       /* leading blanks before it */
 intmax_t strtoimax(const char *s, char **end, int base)
 {
 	(void) base;
-	*end = (char *) s + g_consumed;
+	*end = (char *) s + g_consumed + (DIRECT ? g_lead : 0);
 	if (g_over || (!g_neg && g_mag > (uint64_t) INTMAX_MAX) || (g_neg && g_mag > (uint64_t) INTMAX_MAX + 1u)) {
 		errno = ERANGE;
 		return g_neg ? INTMAX_MIN : INTMAX_MAX;
@@ -40,7 +43,7 @@ intmax_t strtoimax(const char *s, char **end, int base)
 uintmax_t strtoumax(const char *s, char **end, int base)
 {
 	(void) base;
-	*end = (char *) s + g_consumed;
+	*end = (char *) s + g_consumed + (DIRECT ? g_lead : 0);
 	if (g_over) { errno = ERANGE; return UINTMAX_MAX; }
 	return g_neg ? (uintmax_t) 0 - g_mag : g_mag;
 }
@@ -72,9 +75,16 @@ void harness(void)
 #endif
 	for (k = 0; k < 8; k++) dst.raw[k] = 0xA5;
 	errno = 0;
+#if DIRECT
+	/* number parser called directly on text that still carries its leading blanks */
+	qr = mpt_convert_number(txt, FMT, 0);
+	errno = 0;
+	r = mpt_convert_number(txt, FMT, &dst);
+#else
 	qr = mpt_convert_string(txt, FMT, 0);
 	errno = 0;
 	r = mpt_convert_string(txt, FMT, &dst);
+#endif
 	V_ASSERT((qr > 0) == (r > 0), "query mode gives the same verdict");
 	if (r <= 0) {
 		for (k = 0; k < 8; k++) V_ASSERT(dst.raw[k] == 0xA5, "refused conversion leaves the destination untouched");
